@@ -14,7 +14,7 @@ import (
 func init() {
 	register(&Prop{
 		ID:          "C04",
-		Explanation: "Decides that sessions are built from claims only behind token verification: idTokenVerifier.Verify returns a token only when go-oidc's Verify returned it without error and verifyAudience's verdict was true; verifyAudience/isValidAudience are true only on a membership hit of a token audience in allowedAudiences, whose only writer is NewVerifier (keys: ClientID, ExtraAudiences); every oidc.Config literal leaves expiry and signature checks on and takes SkipIssuerCheck from SkipIssuerVerification alone (SkipClientIDCheck:true is accepted because the own audience check is proven); createSession / CreateSessionFromToken / the bearer closure build a session from the raw token only on paths where that same token passed Verify (sole exception: refresh with ErrMissingIDToken, where the token string is empty); the email_verified gate guards every success return of the two claim readers; the bearer loader list holds only provider.CreateSessionFromToken and CreateTokenToSessionFunc(verifier.Verify); every override of CreateSessionFromToken/RefreshSession/Redeem on an OIDC-embedding provider succeeds only after the embedded implementation succeeded.",
+		Explanation: "Decides that sessions are built from claims only behind token verification: idTokenVerifier.Verify returns a token only when go-oidc's Verify returned it without error and verifyAudience's verdict was true; verifyAudience/isValidAudience are true only on a membership hit of a token audience in allowedAudiences, whose only writer is NewVerifier (keys: ClientID, ExtraAudiences); every oidc.Config literal leaves expiry and signature checks on and takes SkipIssuerCheck from SkipIssuerVerification alone (SkipClientIDCheck:true is accepted because the own audience check is proven); createSession / CreateSessionFromToken / the bearer closure build a session from the raw token only on paths where that same token passed Verify (sole exception: refresh with ErrMissingIDToken, where the token string is empty); the email_verified gate guards every success return of the two claim readers; the bearer loader list holds only provider.CreateSessionFromToken and CreateTokenToSessionFunc(verifier.Verify); every override of CreateSessionFromToken/RefreshSession/Redeem on an OIDC-embedding provider succeeds only after the embedded implementation succeeded; the claim extractor's token document is set once and never mutated, and GetClaim returns a profile-endpoint value only after the token lookup for that claim returned nothing.",
 		NotDecided:  "claim-value equality between token and session fields; go-oidc's signature/issuer/expiry code (trusted when not told to skip); the legacy Azure provider's extractClaimsIntoSession (verifies either token, reads the ID token's claims) is listed as an unclaimed site.",
 		Run:         runC04,
 	})
@@ -27,6 +27,7 @@ func runC04(c *Ctx) {
 	r.Rule("R3-same-token", "claims are read only from the token that passed Verify on this path", 6)
 	r.Rule("R4-email-verified", "email_verified gate on every success return of the claim readers", 5)
 	r.Rule("R5-bearer-loaders", "bearer loader list = provider.CreateSessionFromToken + CreateTokenToSessionFunc(verifier.Verify)", 2)
+	r.Rule("R7-token-claims-first", "token claims are immutable after construction and take precedence; profile values only for claims the token lacks", 4)
 	r.Rule("R6-overrides-delegate", "OIDC-embedding providers' overrides succeed only after the embedded implementation succeeded", 8)
 
 	runC04R1(c)
@@ -34,6 +35,7 @@ func runC04(c *Ctx) {
 	runC04R3R4(c)
 	runC04R5(c)
 	runC04R6(c)
+	runC04R7(c)
 }
 
 func runC04R1(c *Ctx) {
@@ -658,4 +660,88 @@ func isDelegate(p *walk.Path, cl walk.Call, base, createSession *ssa.Function) b
 		}
 	}
 	return false
+}
+
+// runC04R7: the verified token's claims win; the profile endpoint only fills claims the token lacks.
+func runC04R7(c *Ctx) {
+	rule := "R7-token-claims-first"
+	tokenF := c.Field(rule, "pkg/providers/util.claimExtractor.tokenClaims")
+	profileF := c.Field(rule, "pkg/providers/util.claimExtractor.profileClaims")
+	getClaim := c.Fn(rule, "(*pkg/providers/util.claimExtractor).GetClaim")
+	getFrom := c.Fn(rule, "pkg/providers/util.getClaimFrom")
+	ctor := c.Fn(rule, "pkg/providers/util.NewClaimExtractor")
+	if tokenF == nil || profileF == nil || getClaim == nil || getFrom == nil || ctor == nil {
+		return
+	}
+	// the token claim document is set once and never mutated
+	for _, ref := range c.fieldRefs(tokenF) {
+		key := ref.Kind + "|" + fnKey(ref.Fn)
+		switch ref.Kind {
+		case "store":
+			if ref.Fn == ctor {
+				c.ok(rule, key, ref.In, "constructor stores the parsed ID-token payload")
+			} else {
+				c.bad(rule, key, ref.In, "the token claim document is replaced after construction", nil, 0)
+			}
+		case "load":
+			ld := ref.In.(*ssa.UnOp)
+			mut := ""
+			for _, u := range *ld.Referrers() {
+				if call, ok := u.(ssa.CallInstruction); ok {
+					if sc := call.Common().StaticCallee(); sc != nil && len(call.Common().Args) > 0 && call.Common().Args[0] == ld {
+						switch sc.Name() {
+						case "Set", "SetPath", "Del", "UnmarshalJSON":
+							mut = sc.Name()
+						}
+					}
+				}
+			}
+			if mut == "" {
+				c.ok(rule, key, ref.In, "read-only use of the token claims")
+			} else {
+				c.bad(rule, key, ref.In, "the verified token's claim document is mutated ("+mut+"): values from the unauthenticated-by-signature profile endpoint can replace token claims", nil, 0)
+			}
+		default:
+			c.bad(rule, key, ref.In, "the address of tokenClaims escapes", nil, 0)
+		}
+	}
+	c.Walk(rule, getClaim, func(p *walk.Path) {
+		ex, ok := p.ReturnDV(1)
+		if !ok {
+			return
+		}
+		if b, k := p.Truth(ex, p.End()); k && !b {
+			return
+		}
+		at := p.End()
+		key := "found-return|" + fnKey(getClaim)
+		rv, _ := p.ReturnDV(0)
+		cl, ok := extractOfCall(p, rv, 0)
+		if !ok || cl.C.StaticCallee() != getFrom || p.Resolve(p.Arg(cl, 0)).V != getClaim.Params[1] {
+			c.bad(rule, key, p.Exit, "GetClaim reports a claim whose value is not getClaimFrom(claim, ·)", p, at)
+			return
+		}
+		src := p.Resolve(p.Arg(cl, 1)).V
+		switch {
+		case walk.IsFieldLoad(src, tokenF):
+			c.ok(rule, key+"|token", p.Exit, "value from the verified token")
+		case walk.IsFieldLoad(src, profileF):
+			// only after the token lookup missed
+			missed := false
+			for _, tc := range p.Find(walk.Static(getFrom), cl.Idx) {
+				if walk.IsFieldLoad(p.Resolve(p.Arg(tc, 1)).V, tokenF) && p.Resolve(p.Arg(tc, 0)).V == getClaim.Params[1] {
+					if n, k := p.ResultNil(tc.DV(), -1, at); k && n {
+						missed = true
+					}
+				}
+			}
+			if missed {
+				c.ok(rule, key+"|profile", p.Exit, "profile value only after the token lookup returned nothing")
+			} else {
+				c.bad(rule, key, p.Exit, "a profile-endpoint value is returned without the token having been consulted first and found lacking the claim", p, at)
+			}
+		default:
+			c.bad(rule, key, p.Exit, "GetClaim reads from a claim document that is neither the token's nor the profile's", p, at)
+		}
+	})
 }
